@@ -355,5 +355,4 @@ def replay(w):
         r = run_shard({"kind": "direct", "seed": 0, "n": 1, "defn": [tuple(x) for x in w["defn"]]})
     else:
         r = run_shard({"kind": "plugin", "item": w["item"], "seed": 0})
-        r.violations = [v for v in r.violations if v["witness"].get("enum") == w.get("enum")]
     return r.violations
